@@ -49,6 +49,29 @@ def _amount_ctx(F, b, inner):
                         if st["d"]["l"] == 0 and not st["d"]["p"] and rv["r"] == "agg" and rv.get("var") == "Ok" and rv["ops"] and is_amt(rv["ops"][0]):
                             ret_ok = True
                 return b, is_amt, ret_ok
+    # Idiom C: match inner(..) { Ok(amt) => { ..; Ok(amt) }, Err(e) => Err(e) }
+    if not inner["d"]["p"]:
+        dl = inner["d"]["l"]
+
+        def payload_of(o, variant):
+            if op_place(o) is None:
+                return False
+            rp = root_place(b, o)
+            return rp is not None and rp["l"] == dl and any(re.search(r"\b%s\b" % variant, e) for e in rp["p"])
+
+        def is_amt(o):
+            if payload_of(o, "Ok"):
+                return True
+            if op_place(o) is None:
+                return False
+            sl = backward_slice(b, o)
+            return any(c is inner for c in sl["calls"]) and not any(re.search(r"::len$", callee_name(c)) for c in sl["calls"])
+        rets = [st for bl in b.blocks for st in bl["s"] if st["d"]["l"] == 0 and not st["d"]["p"] and st["rv"]["r"] == "agg" and st["rv"].get("adt") == "std::result::Result"]
+        oks = [st for st in rets if st["rv"].get("var") == "Ok"]
+        errs = [st for st in rets if st["rv"].get("var") == "Err"]
+        if oks and errs:
+            unchanged = all(st["rv"]["ops"] and payload_of(st["rv"]["ops"][0], "Ok") for st in oks) and all(st["rv"]["ops"] and payload_of(st["rv"]["ops"][0], "Err") for st in errs)
+            return b, is_amt, unchanged
     return None
 
 
